@@ -8,13 +8,13 @@ cd "$WT" || exit 2
 git checkout -q -- . ; rm -rf tests
 git apply --check "$MD/patch.diff" || { echo "RESULT $NAME patch-does-not-apply"; exit 1; }
 mkdir -p tests
-if [ -f "$MD/demo.rs" ]; then cp "$MD/demo.rs" tests/demo_seed.rs; DEMO="cargo test --offline --test demo_seed"; else DEMO="bash $MD/demo.sh"; fi
+if [ -f "$MD/demo.rs" ]; then cp "$MD/demo.rs" tests/demo_seed.rs; DEMO="cargo test --offline --test demo_seed"; else DEMO="bash $MD/demo.sh"; cargo build --offline >/dev/null 2>&1; fi
 $DEMO >/tmp/seed_$NAME.clean.log 2>&1; CLEAN=$?
 git apply "$MD/patch.diff"
 mv tests /tmp/seed_tests_$$; 
 cargo test --workspace --offline >/tmp/seed_$NAME.base.log 2>&1; BASE=$?
 NPASS=$(grep -E "^test result: ok\. 66 passed" /tmp/seed_$NAME.base.log | wc -l)
-mv /tmp/seed_tests_$$ tests
+mv /tmp/seed_tests_$$ tests; cargo build --offline >/dev/null 2>&1
 $DEMO >/tmp/seed_$NAME.mut.log 2>&1; MUT=$?
 git checkout -q -- . ; rm -rf tests
 echo "RESULT $NAME demo_clean_exit=$CLEAN baseline_exit=$BASE baseline_66=$NPASS demo_mutated_exit=$MUT"
